@@ -3,7 +3,24 @@ sys.path.insert(0, os.path.dirname(os.path.dirname(os.path.abspath(__file__))))
 import checklib
 
 
+def regen_facts(ctx):
+    """lean/Hive/Gen/C02_Facts.lean: values of the constants the decoder / stream models use (go/types) and the
+    normalised bodies of the functions they transcribe (harness/c02/facts), rewritten from the working tree on every
+    run; tied to the models by the C02_facts_* / C01_facts_* obligations."""
+    out = os.path.join(checklib.LEAN, "Hive", "Gen", "C02_Facts.lean")
+    tmp = os.path.join(ctx.scratch, "C02_Facts.lean")
+    rc, log = checklib.sh(["go", "run", "./c02/facts", tmp, "Hive.Gen.C02Facts", ctx.repo], cwd=checklib.HARNESS, timeout=600)
+    if rc != 0 or not os.path.exists(tmp):
+        return [{"kind": "facts-extractor", "detail": checklib.tail(log, 20)}]
+    checklib.write_gen(ctx, out, open(tmp).read())
+    return []
+
+
 def regen(ctx):
+    return regen_skel(ctx) + regen_facts(ctx)
+
+
+def regen_skel(ctx):
     """The caches and registries of a serix.API are shared by every Decode/Encode on it: the kind of lock each
     accessor takes (lock vs rlock) is pinned by regenerated synchronisation skeletons (Props/C02.lean,
     C02_skeleton_*)."""
@@ -36,6 +53,9 @@ SPEC = {
                  "C02_omap_total", "C02_typeutils_consumed_le",
                  "C02_stream_no_panic", "C02_stream_consumed_le", "C02_stream_alloc_linear", "C02_stream_iters_linear", "C02_stream_seek_no_panic", "C02_stream_bytesRead_le",
                  "C02_json_no_panic", "C02_all",
+                 "C02_facts_constants", "C02_facts_type_allowedGenericTypes", "C02_facts_body_ReadBytes", "C02_facts_body_ReadBytesWithSize", "C02_facts_body_ReadObject", "C02_facts_body_ReadObjectWithSize", "C02_facts_body_PeekSize", "C02_facts_body_ReadCollection",
+                 "C02_facts_body_readFixedSize", "C02_facts_body_ByteReader_BytesRead", "C02_facts_body_Uint64FromBytes", "C02_facts_body_ByteArray32FromBytes", "C02_facts_body_Deserializer_readSliceLength", "C02_facts_body_Deserializer_ReadVariableByteSlice", "C02_facts_body_Deserializer_ReadString", "C02_facts_body_Deserializer_ReadBytes",
+                 "C02_facts_body_Deserializer_ReadPayloadLength", "C02_facts_body_Deserializer_GetObjectType", "C02_facts_body_Deserializer_ReadSequenceOfObjects", "C02_facts_body_Deserializer_RemainingBytes", "C02_facts_body_Deserializer_Done", "C02_facts_body_Deserializer_Skip", "C02_facts_body_Deserializer_ReadTime", "C02_facts_body_Deserializer_ReadPayload",
                  "C02_skeleton_structFieldsCache_Get", "C02_skeleton_structFieldsCache_Set", "C02_skeleton_API_getStructFields",
                  "C02_skeleton_TypeSettingsRegistry_GetByType", "C02_skeleton_TypeSettingsRegistry_GetByValue",
                  "C02_skeleton_TypeSettingsRegistry_RegisterTypeSettings", "C02_skeleton_InterfacesRegistry_Get",
@@ -47,6 +67,7 @@ SPEC = {
         "- each tied by line-by-line differential execution (harness/c02) on mutated valid encodings, random bytes and kind-mutated JSON documents",
         "the string syntaxes of strconv.ParseInt/ParseUint/ParseFloat (decimal, inf/nan, underscores; no hex floats), hexutil.Decode/DecodeBig and utf8.ValidString as written down in JsonDec.lean",
         "harness/tools/extract-sync (shared go/ast extractor): regenerates Hive/Gen/C02_Skel.lean, the synchronisation skeletons of the struct-field cache and the registries of a serix.API, pinned by the C02_skeleton_* decide-obligations",
+        "harness/c02/facts (go/types + go/ast): regenerates Hive/Gen/C02_Facts.lean - constant values and normalised function bodies of serializer/serializer.go, serializer/stream, serializer/typeutils - tied to the models by the C02_facts_* obligations (constants by decide, bodies against the pinned copies in Hive/Spec/DeserFacts.lean)",
         "the independent Go oracle (recovered panic, consumed > len, runtime.MemStats.TotalAlloc delta > 64 KiB + 64*len; 256*len for serix.Decode / ordered map) evaluated in a child process with an address-space limit",
         "Go toolchain, compiled Lean driver",
     ],
